@@ -63,7 +63,7 @@ def main():
             return 2
         shutil.copy(demo, os.path.join(wt, "demo_seed.py"))
         touches_c = "c_rain.c" in open(patch).read()
-        env = dict(os.environ, PYTHONDONTWRITEBYTECODE="1")
+        env = dict(os.environ, PYTHONDONTWRITEBYTECODE="1", OMP_NUM_THREADS="1", OPENBLAS_NUM_THREADS="1", MKL_NUM_THREADS="1")
         if touches_c or prop == "C05":
             rc, o = sh(f"{PY} setup.py build_ext --inplace", cwd=wt, env=env)
             meta["ran"].append(f"build_ext (clean): rc={rc}")
@@ -98,7 +98,7 @@ def main():
             t0 = time.time()
             xml = f"/tmp/sw/{sid}.junit.xml"
             rc, o = sh(f"{PY} -m pytest -q -p no:cacheprovider --timeout=900 --continue-on-collection-errors --junitxml={xml} -x --co -q >/dev/null 2>&1; "
-                       f"{PY} -m pytest -q -p no:cacheprovider --timeout=900 --continue-on-collection-errors --junitxml={xml}", cwd=wt,
+                       f"{PY} -m pytest -q -p no:cacheprovider --timeout=900 --continue-on-collection-errors -n 6 --dist loadfile --junitxml={xml}", cwd=wt,
                        timeout=7200, env=env)
             base = json.load(open("/root/.vp/BASELINE.json"))
             want = set(base["stable_pass"])
